@@ -330,6 +330,23 @@ fn tp_grid(m: &mut Monitor, cfg: &Config) {
                             }
                             returned[ih] = st.density.to_reduced();
                             m.case("tp-grid", hash_f64s(&s.name, &[t, p, ih as f64]), true);
+                            // cross-route oracle: the (T,p,V) input set must honour the same hint as (T,p,N):
+                            // same density (hence same branch), and V echoed exactly.
+                            if (it + 2 * ip + ih) % 3 == 0 || scan_at.contains(&(it, ip)) {
+                                let v = 1e3 * (1.0 + 0.37 * ((it * 31 + ip * 7) % 11) as f64);
+                                let r2 = State::new(&eos, Some(Temperature::from_reduced(t)), Some(Volume::from_reduced(v)), None, None, None, None, None, Some(Pressure::from_reduced(p)), hint);
+                                match r2 {
+                                    Ok(s2) => {
+                                        let d = (s2.density.to_reduced() / returned[ih] - 1.0).abs();
+                                        m.check("tpv:same branch as (T,p,N) with the same hint", &format!("tpv branch|hint={hn}"), case, d, 1e-6, info);
+                                        m.check_bool("tpv:V and T echoed", "tpv echo", case, s2.volume.to_reduced() == v && s2.temperature.to_reduced() == t, info);
+                                    }
+                                    Err(e) => {
+                                        let e = format!("{e}");
+                                        m.check_bool("tpv:succeeds where (T,p,N) succeeds", &format!("tpv success|hint={hn}"), case, false, || json!({"file": s.file, "name": s.name, "T/Tc": t / tc, "p/pc": p / pc, "hint": hn, "error": e}));
+                                    }
+                                }
+                            }
                         }
                         Err(e) => {
                             let e = format!("{e}");
